@@ -10,7 +10,7 @@ PROP = {
             "one evaluation = one case whose argument expression really has the declared type; distinct = FNV of (template, printed argument annotations); non-trivial = argument ASTs have >= 2 nodes in total; "
             "admissible = exact instantiation, or equal after widening literals and expanding aliases on both sides",
     "min_nontrivial": {"quick": 60000, "thorough": 1000000},
-    "max_secs": {"quick": 60, "thorough": 900},
+    "max_secs": {"quick": 600, "thorough": 1500},
     "require_clauses": ["template:id", "template:array-of", "template:elem", "template:mk-table", "template:value-of", "template:key-of", "template:optional", "template:pair", "template:dup", "template:call", "template:elem-of-tuple", "template:ret-fun", "template:param-fun", "template:elem2", "held:exact", "held:modulo-widening-or-alias"],
     "assumptions": COMMON_ASSUME + [
         "arguments are typed locals without initialiser; cases where the analyzer reports another type for the argument expression are inconclusive",
